@@ -388,6 +388,11 @@ func envPickler(x starlark.Value) (module, name string, args starlark.Tuple, err
 		if x.Type() == "mandatory" {
 			return "dawn", "Mandatory", starlark.Tuple{}, nil
 		}
+		// A range is not the list of its elements (it prints, concatenates and compares differently): without this the
+		// encoder would write it as any other sequence.
+		if x.Type() == "range" {
+			return "dawn", "Range", starlark.Tuple{starlark.String(x.String())}, nil
+		}
 		return "", "", nil, pickle.ErrCannotPickle
 	}
 }
@@ -429,6 +434,11 @@ func envUnpickler(module, name string, args starlark.Tuple) (starlark.Value, err
 		// Records written before builtins were told apart carry no arguments.
 		if len(args) > 2 {
 			return nil, fmt.Errorf("expected at most 2 args, got %v", len(args))
+		}
+		return args, nil
+	case "Range":
+		if len(args) != 1 {
+			return nil, fmt.Errorf("expected 1 arg, got %v", len(args))
 		}
 		return args, nil
 	case "Mandatory", "Unassigned":
